@@ -37,6 +37,8 @@ func checkC01(c *Ctx) {
 	sim := &SketchGen{Init: one, Tokens: append(append([]int{}, tokBins3...), tokZero...), Ops: []string{"Add"}, Q: 4, QDen: 8,
 		Depth: c.pick(12, 24), Simulate: true, Num: c.pick(1500, 40000)}
 	c.runSketchGen(sim, mx, c.pick(8, 16), "simulated long add histories")
+	// direction B: production-size inputs, q = every k/(n-1) and both float neighbours, validated by TLC (Trace_Sketch)
+	c.runSketchTraces(c.pick(4, 60), false, c.pick(600, 2500), "unit-weight inputs, q at every k/(n-1)")
 }
 
 // C11 - weighted quantiles only return values the sketch holds, at the right rank
@@ -58,4 +60,5 @@ func checkC11(c *Ctx) {
 		Factors: [][2]int{{1, 2}, {1, 4}, {2, 1}, {3, 1}, {1, 1}}, Ops: []string{"AddW", "AddW", "Add", "Reweight"}, Q: 4, QDen: 8,
 		Depth: c.pick(10, 20), Simulate: true, Num: c.pick(1500, 40000)}
 	c.runSketchGen(sim, mx, c.pick(8, 16), "simulated weighted histories")
+	c.runSketchTraces(c.pick(6, 60), true, c.pick(600, 2500), "weighted inputs, random and extreme q")
 }
